@@ -327,6 +327,24 @@ impl Mon {
             _ => return,
         };
         let kind = Kind::of(&ixn.data);
+        if code == err::PROTOCOL_PAUSED {
+            // a user instruction refused as paused: the pause recorded in the group's own cache must
+            // still be running (nobody has to act for an expired pause to stop blocking users)
+            let now = w.chain.now();
+            for mt in &ixn.accounts {
+                if let Some(g) = w.shadow.get(&mt.pubkey).filter(|a| a.owner == MFI).and_then(|a| group_of(&a.data)) {
+                    let c = g.panic_state_cache;
+                    let running = c.pause_flags & 1 != 0 && (now < c.pause_start_timestamp || now - c.pause_start_timestamp < 1800);
+                    self.r.eval();
+                    self.r.count(&format!("C15.chain_user_instruction_refused_as_paused/{}", kind.name()));
+                    if !running {
+                        self.r.violate("C15", &format!("C15/chain/{}/expired-pause-still-blocking-users", kind.name()), format!("group {}: cache flags {} start {} now {}", mt.pubkey, c.pause_flags, c.pause_start_timestamp, now));
+                    }
+                    break;
+                }
+            }
+            return;
+        }
         if !matches!(kind, Kind::PanicUnpause | Kind::PanicUnpausePermissionless) {
             return;
         }
@@ -467,7 +485,18 @@ impl Mon {
                 }
             }
         }
-        // (c) deleverage daily limit
+        // (c) deleverage daily limit. The program's day is a tumbling window that opens with the
+        // first forced withdrawal at least 24 h after the previous opening - and setting the limit
+        // re-opens it at the time of the instruction while keeping the amount already counted (the
+        // group admin's instruction, `configure_deleverage_withdrawal_limit`); the reference window
+        // follows both.
+        if info.kind == Kind::ConfigureDelevLimit {
+            if let Some(gs) = v.ev.pre.iter().find(|s| s.owner == MFI && group_of(&s.data).is_some()) {
+                let st = self.delev.entry(gs.key).or_insert((0i64, 0u64));
+                st.0 = info.now;
+                self.r.count("C12.deleverage_window_reopened_by_limit_configuration");
+            }
+        }
         if info.kind == Kind::Withdraw {
             if let Some((_, Some(ap), _)) = info.accts.first() {
                 if ap.account_flags & ACCOUNT_IN_DELEVERAGE != 0 {
